@@ -193,7 +193,9 @@ class Side:
                     self.reject(j, Err(f"re{spec[3]}"))
                 return spec[3]
             if kind == "register":  # re-entrant registration on a promise
-                j = spec[1] % len(self.table)
+                # ("self": on the very promise whose callback this is -- it is notifying right
+                # now and may still have earlier-registered callbacks waiting)
+                j = owner if spec[1] == "self" else spec[1] % len(self.table)
                 self.reentrant_registration = True
                 if len(self.table) < MAX_PROMISES:
                     self.then(j, ("ret", 100 + cb_id), None, cb_id * 100 + 1)
@@ -258,6 +260,8 @@ def gen_handler(ch: Choices, allow_reentrant: bool) -> Optional[tuple]:
     if k == 6:
         return ("settle", ch.choice(MAX_PROMISES, "settle-which"), bool(ch.choice(2, "settle-ok")),
                 ch.choice(5, "settle-val"))
+    if ch.coin(0.6, "register-on-self"):
+        return ("register", "self")
     return ("register", ch.choice(MAX_PROMISES, "register-on"))
 
 
